@@ -108,9 +108,9 @@ pub fn count_ladder_programs(tier: crate::shard::Tier) -> Vec<(usize, Vec<Stmt>)
     // LAST in each cell (how much is pending during marking depends on that order); afterwards an array literal
     // made of temporaries, a call, and a walk over the whole list
     {
-        let mut big: Vec<usize> = vec![100_000, (1 << 17) - 1, 1 << 17, (1 << 17) + 1, 200_000, (1 << 18) + 1, 300_000, (1 << 19) - 1, 1 << 19, (1 << 19) + 1, 600_000, 1_000_000, (1 << 20) + 1];
+        let mut big: Vec<usize> = vec![(1 << 17) - 1, 1 << 17, (1 << 17) + 1, (1 << 19) - 1, 1 << 19, (1 << 19) + 1, 600_000, 1_000_000];
         if tier != crate::shard::Tier::Quick {
-            big.extend([(1 << 21) + 1, 3_000_000]);
+            big.extend([100_000, 200_000, (1 << 18) + 1, 300_000, (1 << 20) + 1, (1 << 21) + 1, 3_000_000]);
         }
         for n in big {
             let ni = n as i64;
@@ -290,9 +290,16 @@ pub fn count_ladder(sh: &mut Shard, which: &str) {
             if which == "C04" {
                 let mut ks: Vec<u64> = Vec::new();
                 let mut p = 1u64;
+                // (the big-end programs run for tens of millions of instructions: every fourth power of two there)
+                let big = st.steps > 3_000_000;
+                let mut e = 0;
                 while p <= st.steps {
-                    ks.extend([p.saturating_sub(1), p, p + 1]);
+                    // (big programs: only the very end; they run for tens of millions of instructions)
+                    if !big {
+                        ks.extend([p.saturating_sub(1), p, p + 1]);
+                    }
                     p *= 2;
+                    e += 1;
                 }
                 ks.extend([st.steps.saturating_sub(2), st.steps.saturating_sub(1)]);
                 ks.retain(|k| *k < st.steps);
@@ -300,6 +307,8 @@ pub fn count_ladder(sh: &mut Shard, which: &str) {
                 ks.dedup();
                 let text = printer::program(&prog);
                 for k in ks {
+                    // one heartbeat per abort point (a big program cut late runs for seconds)
+                    sh.begin(&|| format!("allocation ladder n={n}, cut after {k} instructions"));
                     let r = run_ast(&prog, RunOpts { budget: Some(k), ledger: true, trace: false, render: false });
                     sh.count("abort-points");
                     if !matches!(r.end, ImplEnd::Budget) {
